@@ -1277,6 +1277,47 @@ func (g *Gen) History() []E {
 	if (g.P.Name == "reads" || g.P.Name == "general") && g.P.Indexes && g.chance(0.35) {
 		evs = append(evs, g.lifecycleSweep()...)
 	}
+	if (g.P.Name == "derived" || g.P.Name == "audit") && g.P.Indexes && g.chance(0.4) {
+		// two indexes, the one created second is dropped: the first still holds an entry per document (sorted
+		// reads without criteria go through it, Count does not), the dropped one leaves nothing behind
+		for _, c := range g.colls {
+			if !g.created[c] {
+				continue
+			}
+			if free := g.freeIds(c); len(g.live[c]) < 2 && len(free) >= 3 {
+				evs = append(evs, E{"op": "Insert", "c": c, "docs": []interface{}{g.doc(AStr(free[1])), g.doc(AStr(free[2]))}})
+				g.noteInsert(c, free[1], free[2])
+			}
+			f1, f2 := "k", "z"
+			for _, f := range []string{f1, f2} {
+				if !g.idx[c][f] {
+					g.idx[c][f] = true
+					evs = append(evs, E{"op": "CreateIndex", "c": c, "f": B(f)})
+				}
+			}
+			if free := g.freeIds(c); len(free) > 0 {
+				evs = append(evs, E{"op": "Insert", "c": c, "docs": []interface{}{AObj("_id", AStr(free[0]), f1, g.smallNum(), f2, g.smallNum())}})
+				g.noteInsert(c, free[0])
+			}
+			delete(g.idx[c], f2)
+			evs = append(evs, E{"op": "DropIndex", "c": c, "f": B(f2), "audit": true})
+			var ids []interface{}
+			for id := range g.live[c] {
+				ids = append(ids, B(id))
+				if len(ids) == 2 {
+					break
+				}
+			}
+			for _, dir := range []int{1, -1} {
+				evs = append(evs, E{"op": "Derived", "c": c, "q": []interface{}{[]interface{}{"sort", []interface{}{[]interface{}{B(f1), dir}}}}, "js": []interface{}{0, 1}, "ids": ids})
+			}
+			evs = append(evs, E{"op": "UpdateFunc", "c": c, "q": []interface{}{}, "upd": []interface{}{"set", B(f2), g.smallNum()}})
+			g.idx[c][f2] = true
+			evs = append(evs, E{"op": "CreateIndex", "c": c, "f": B(f2), "audit": true})
+			evs = append(evs, E{"op": "Derived", "c": c, "q": []interface{}{[]interface{}{"sort", []interface{}{[]interface{}{B(f2), 1}}}}, "js": []interface{}{0}, "ids": ids})
+			break
+		}
+	}
 	if g.P.Name == "ids" && g.chance(0.5) {
 		evs = append(evs, g.idFormSweep()...)
 	}
